@@ -240,3 +240,70 @@ void h_vlo_array_expand (void)
   vlo_array_expand ();
   if ((size_t) vlo_array_len - 1 == gh_ninit) VACUITY_CANARY_N ("array used up: a vlo is created"); else VACUITY_CANARY_N ("an existing vlo is reused");
 }
+
+/* ---- E.csv.new (C12): core_symb_vect_new - creates the (set core, symbol) record and takes two vlos from the array of vlos.
+   vlo_array_expand may MOVE the array (its block is reallocated when the array is used up): the use-contract below lets it free the
+   old block, so an element pointer held across the call is a dangling pointer (what the seeded change C12-m7 does).  ---- */
+#ifndef VCAP2
+#define VCAP2 6
+#endif
+#define COS (&core_symb_vect_os)
+void os_expand_csv_c (os_t *os, size_t additional_length)
+__CPROVER_requires (os == COS)
+__CPROVER_assigns (os->os_current_segment, os->os_top_object_start, os->os_top_object_free, os->os_boundary, gh_newlen)
+__CPROVER_ensures (gh_newlen >= OS_DEFAULT_SEGMENT_LENGTH && gh_newlen <= 2 * OS_DEFAULT_SEGMENT_LENGTH
+                   && gh_newlen >= (size_t) (OFF (__CPROVER_old (os->os_top_object_free)) - OFF (__CPROVER_old (os->os_top_object_start))) + additional_length)
+__CPROVER_ensures (__CPROVER_is_fresh (os->os_current_segment, gh_newlen + HDR))
+__CPROVER_ensures (__CPROVER_pointer_in_range_dfcc (SEGB (os) + PAY, os->os_top_object_start, SEGB (os) + PAY))
+__CPROVER_ensures (__CPROVER_pointer_in_range_dfcc (SEGB (os) + PAY + (OFF (__CPROVER_old (os->os_top_object_free)) - OFF (__CPROVER_old (os->os_top_object_start))), os->os_top_object_free,
+                                                    SEGB (os) + PAY + (OFF (__CPROVER_old (os->os_top_object_free)) - OFF (__CPROVER_old (os->os_top_object_start)))))
+__CPROVER_ensures (__CPROVER_pointer_in_range_dfcc (SEGB (os) + PAY + gh_newlen, os->os_boundary, SEGB (os) + PAY + gh_newlen))
+;
+struct core_symb_vect **csv_addr_get_c (struct set_core *set_core, struct symb *symb)
+__CPROVER_assigns ()
+__CPROVER_ensures (__CPROVER_is_fresh (__CPROVER_return_value, sizeof (struct core_symb_vect *)))
+__CPROVER_ensures (*__CPROVER_return_value == NULL)
+;
+int vlo_array_expand_moves_c (void)
+__CPROVER_requires (vlo_array_len >= 0 && vlo_array_len < VCAP2)
+__CPROVER_assigns (vlo_array.vlo_start, vlo_array.vlo_free, vlo_array.vlo_boundary, vlo_array_len)
+__CPROVER_frees (vlo_array.vlo_start)
+__CPROVER_ensures (__CPROVER_return_value == __CPROVER_old (vlo_array_len) && vlo_array_len == __CPROVER_old (vlo_array_len) + 1)
+__CPROVER_ensures (__CPROVER_is_fresh (vlo_array.vlo_start, VCAP2 * sizeof (vlo_t)))          /* the adversarial allocator: the array is somewhere else afterwards */
+__CPROVER_ensures (__CPROVER_pointer_in_range_dfcc (vlo_array.vlo_start + vlo_array_len * sizeof (vlo_t), vlo_array.vlo_free, vlo_array.vlo_start + vlo_array_len * sizeof (vlo_t)))
+__CPROVER_ensures (__CPROVER_pointer_in_range_dfcc (vlo_array.vlo_start + VCAP2 * sizeof (vlo_t), vlo_array.vlo_boundary, vlo_array.vlo_start + VCAP2 * sizeof (vlo_t)))
+__CPROVER_ensures (__CPROVER_is_fresh (((vlo_t *) vlo_array.vlo_start)[__CPROVER_return_value].vlo_start, 64))      /* the element handed out is an empty vlo with its own block */
+;
+struct core_symb_vect *csv_new_c (struct set_core *set_core, struct symb *symb)
+__CPROVER_requires (vlo_array_len >= 0 && vlo_array_len + 2 <= VCAP2)
+__CPROVER_assigns (core_symb_vect_os.os_current_segment, core_symb_vect_os.os_top_object_start, core_symb_vect_os.os_top_object_free, core_symb_vect_os.os_boundary, gh_newlen,
+                   __CPROVER_object_whole (core_symb_vect_os.os_top_object_start),
+                   vlo_array.vlo_start, vlo_array.vlo_free, vlo_array.vlo_boundary, vlo_array_len,
+                   new_core_symb_vect_vlo.vlo_free, __CPROVER_object_whole (new_core_symb_vect_vlo.vlo_start), n_core_symb_pairs)
+__CPROVER_frees (vlo_array.vlo_start)
+__CPROVER_ensures (__CPROVER_return_value->set_core == set_core && __CPROVER_return_value->symb == symb)
+__CPROVER_ensures (__CPROVER_return_value->transitions.len == 0 && __CPROVER_return_value->reduces.len == 0)
+__CPROVER_ensures (__CPROVER_return_value->transitions.intern == __CPROVER_old (vlo_array_len) && __CPROVER_return_value->reduces.intern == __CPROVER_old (vlo_array_len) + 1)
+/* the reduce vector is the block of the element it names, in the array as it is NOW */
+__CPROVER_ensures (__CPROVER_return_value->reduces.els == (int *) ((vlo_t *) vlo_array.vlo_start)[__CPROVER_return_value->reduces.intern].vlo_start)
+;
+void h_csv_new (void)
+{
+  struct set_core *sc; struct symb *sy; struct _os_segment *seg; size_t st, fr; char *nv;
+  HAVOC (gh_newlen); HAVOC (sc); HAVOC (sy);
+  /* the stack of records: one segment of the default length, top object empty somewhere in it */
+  seg = malloc (OS_DEFAULT_SEGMENT_LENGTH + HDR); __CPROVER_assume (seg != NULL);
+  HAVOC (st); __CPROVER_assume (st % 8 == 0 && st <= OS_DEFAULT_SEGMENT_LENGTH);
+  core_symb_vect_os.os_alloc = (YaepAllocator *) seg; core_symb_vect_os.os_current_segment = seg; core_symb_vect_os.initial_segment_length = OS_DEFAULT_SEGMENT_LENGTH;
+  core_symb_vect_os.os_top_object_start = core_symb_vect_os.os_top_object_free = (char *) seg + PAY + st; core_symb_vect_os.os_boundary = (char *) seg + PAY + OS_DEFAULT_SEGMENT_LENGTH;
+  /* the array of vlos: a block of its own */
+  vlo_array.vlo_start = malloc (VCAP2 * sizeof (vlo_t)); __CPROVER_assume (vlo_array.vlo_start != NULL);
+  HAVOC (vlo_array_len); __CPROVER_assume (vlo_array_len >= 0 && vlo_array_len + 2 <= VCAP2);
+  vlo_array.vlo_free = vlo_array.vlo_start + vlo_array_len * sizeof (vlo_t); vlo_array.vlo_boundary = vlo_array.vlo_start + VCAP2 * sizeof (vlo_t); vlo_array.vlo_alloc = (YaepAllocator *) seg;
+  /* the list of records of the set being formed: room for one more pointer (its growth is _VLO_expand_memory's business) */
+  nv = malloc (64); __CPROVER_assume (nv != NULL); HAVOC (fr); __CPROVER_assume (fr % 8 == 0 && fr + 8 <= 64);
+  new_core_symb_vect_vlo.vlo_start = nv; new_core_symb_vect_vlo.vlo_free = nv + fr; new_core_symb_vect_vlo.vlo_boundary = nv + 64; new_core_symb_vect_vlo.vlo_alloc = (YaepAllocator *) seg;
+  HAVOC (n_core_symb_pairs); __CPROVER_assume (n_core_symb_pairs >= 0 && n_core_symb_pairs < 1000000);
+  core_symb_vect_new (sc, sy);
+  VACUITY_CANARY ();
+}
